@@ -22,6 +22,8 @@ type SingleKnobs struct {
 	PReload                float64
 	PRestart               float64
 	PHolds                 float64
+	PWebhookTimeout        float64
+	PReloadAfterResolve    float64
 	PProbe                 float64 // probe GETs sprinkled over the run
 	PResolve               float64 // episode ends by explicit resolve (else by time-out)
 	PRefire                float64
@@ -254,6 +256,10 @@ func genSingle(seed uint64, prop string, k SingleKnobs) *Plan {
 			if k.MaxAlertsOpt && rc.Bool(0.3) {
 				w.MaxAlerts = rc.Range(1, 3)
 			}
+			if rc.Bool(k.PWebhookTimeout) {
+				// a per-attempt time-out: a hanging receiver is then retried within the flush
+				w.Timeout = Pick(rc, []Dur{300 * time.Millisecond, 2 * time.Second, 7 * time.Second})
+			}
 			rcv.Webhooks = append(rcv.Webhooks, w)
 		}
 		cfg.Receivers = append(cfg.Receivers, rcv)
@@ -330,7 +336,13 @@ func genSingle(seed uint64, prop string, k SingleKnobs) *Plan {
 							e := x
 							a.EndOff = &e
 						}
-						b.add(Action{At: ft, Kind: "post", Alerts: []PAlert{a}, Str: "refire"})
+						rat := b.add(Action{At: ft, Kind: "post", Alerts: []PAlert{a}, Str: "refire"})
+						if ra.Bool(0.3) {
+							// the worker that ingests the re-fire is suspended right before one of
+							// its first store critical sections (between looking the group up and
+							// inserting into it), while the group's flush of the resolution may run
+							p.Holds = append(p.Holds, Hold{Site: "auto.store", Match: fmt.Sprintf("%s@%d", labelsKey(ls), int64(rat)), Nth: ra.Intn(3), Delay: ra.Dur(300*time.Millisecond, 2*time.Second) + 3})
+						}
 						t = ft + hb
 						continue
 					}
@@ -407,6 +419,19 @@ func genSingle(seed uint64, prop string, k SingleKnobs) *Plan {
 		n := rr.Range(1, 2)
 		for i := 0; i < n; i++ {
 			b.add(Action{At: rr.Dur(30*time.Second, p.Horizon*3/4), Kind: "reload", Cfg: Pick(rr, []int{0, 0, 1, 2})})
+		}
+	}
+	if rr.Bool(k.PReloadAfterResolve) {
+		// a reload while a resolution is still owed: shortly after an explicit resolve,
+		// before the group's next flush
+		var res []Dur
+		for _, a := range p.Actions {
+			if a.Kind == "post" && a.Str == "resolve" {
+				res = append(res, a.At)
+			}
+		}
+		if len(res) > 0 {
+			b.add(Action{At: Pick(rr, res) + rr.Dur(50*time.Millisecond, 40*time.Second), Kind: "reload", Cfg: 0})
 		}
 	}
 	if rr.Bool(k.PRestart) {
